@@ -945,8 +945,13 @@ class Interp:
         if kind == 'fn':
             return self.call_fn(ctx, f, args)
         self.model_hits[key] = self.model_hits.get(key, 0) + 1
+        # the model may read ctx.cur_* after calls it makes itself: restore them when it returns
+        saved = (getattr(ctx, 'cur_key', None), getattr(ctx, 'cur_crate', None), getattr(ctx, 'cur_raw', None))
         ctx.cur_key = key; ctx.cur_crate = crate; ctx.cur_raw = raw or key
-        return f(self, ctx, *args)
+        try:
+            return f(self, ctx, *args)
+        finally:
+            ctx.cur_key, ctx.cur_crate, ctx.cur_raw = saved
 
     def call_value(self, ctx, crate, f, args):
         """call a closure / fn item value with already spread arguments"""
